@@ -16,6 +16,8 @@ import (
 //
 //	new
 //	mkd|mki ...     build with a REAL shipped signer (recorded: announced SigInfo, bytes handed, value)
+//	hold / valheld  remember the packet just built (in the buffers it was returned in); after the NEXT packet
+//	                was built with the same signer instance, decode and validate the remembered one
 //	val             decode the untampered bytes, compare the parser's signed portion with what the
 //	                signer was handed, run the REAL matching validator
 //	val <cuts>      the same over a segmented reader
@@ -69,7 +71,22 @@ func gen(g *common.Gen) {
 				}
 			}
 		}
+		// a second packet from the SAME signer instance must not disturb the first one
+		holdFirst := r.Chance(1, 2)
+		if holdFirst {
+			tok := strings.Fields(mk)
+			first := c03.GenMkd(r, c03.Shape{}, g, tok[len(tok)-1])
+			if tok[0] == "mki" {
+				first = c03.GenMki(r, c03.Shape{}, g, tok[len(tok)-1])
+			}
+			g.Op("%s", first)
+			g.Op("hold")
+			g.Stat("hold")
+		}
 		g.Op("%s", mk)
+		if holdFirst {
+			g.Op("valheld")
+		}
 		size := c03.EstSize(mk)
 		g.Op("val c")
 		g.Op("val own")
@@ -97,7 +114,7 @@ func gen(g *common.Gen) {
 	}
 }
 
-var last *c03.Built
+var last, held *c03.Built
 var lastMkOut string
 
 func sigOf(p any) ndn.Signature {
@@ -148,7 +165,8 @@ func exec(op string) string {
 	f := common.Fields(op)
 	switch f[0] {
 	case "new":
-		last, lastMkOut = nil, ""
+		last, lastMkOut, held = nil, "", nil
+		c03.ResetSigners()
 		return "ok"
 	case "mkd":
 		out, b := c03.MakeData(f)
@@ -169,6 +187,36 @@ func exec(op string) string {
 			return "skip"
 		}
 		return lastMkOut
+	case "hold":
+		if last == nil {
+			return "skip"
+		}
+		held = last
+		return "ok"
+	case "valheld":
+		// the packet built BEFORE the last one, read from the buffers it was returned in, after the
+		// same signer instance has built another packet
+		if held == nil {
+			return "skip"
+		}
+		now := append([]byte{}, held.Orig.Join()...)
+		same := "same"
+		if string(now) != string(held.Wire) {
+			same = "changed"
+		}
+		v, cov := decodeValidate(held, now, "c")
+		if v == "e" {
+			return "e " + same
+		}
+		c := "na"
+		if held.Rec != nil && held.Rec.Handed {
+			if string(cov) == string(held.Rec.Covered) {
+				c = "eq"
+			} else {
+				c = "ne"
+			}
+		}
+		return v + " cov=" + c + " " + same
 	case "val":
 		if last == nil {
 			return "skip"
